@@ -71,6 +71,42 @@ def doc_part1(as_ref, body_chain=1, version="3.1.0"):
     return doc
 
 
+# ---------------------------------------------------------------------------------------------------- part 1m
+
+M_ID = {"name": "id", "in": "query", "required": False, "schema": {"type": "string"}}
+M_SORT = {"name": "sort", "in": "query", "required": False, "schema": {"type": "string", "enum": ["asc", "desc"], "default": "asc"}}
+M_BODY = {"required": True, "content": {"application/json": {"schema": {"$ref": R + "Thing"}}}}
+M_RESP = {"description": "ok", "content": {"application/json": {"schema": {"$ref": R + "Thing"}}}}
+M_PROBLEM = {"description": "problem", "content": {"application/json": {"schema": {"type": "object", "properties": {"msg": {"type": "string"}}}}}}
+SITES_M = ["A.id", "B.id", "C.id", "B.sort", "C.sort", "A2.body", "C.body", "A.resp", "B.resp", "B.problem404", "B.problem409", "C.problem404"]
+
+
+def doc_part1m(as_ref, order="ABC"):
+    """Several operations using the SAME reusable components; the first operation forces a conflict rename of `id`
+    (path + query).  Every use site is independently inline or by reference."""
+    comps = {"parameters": {}, "requestBodies": {}, "responses": {}}
+
+    def use(site, obj, section, name):
+        if site in as_ref:
+            comps[section][name] = copy.deepcopy(obj)
+            return {"$ref": f"#/components/{section}/{name}"}
+        return copy.deepcopy(obj)
+    pid = {"name": "id", "in": "path", "required": True, "schema": {"type": "integer"}}
+    paths = {
+        "A": ("/things/{id}", {"get": {"operationId": "opA", "parameters": [copy.deepcopy(pid), use("A.id", M_ID, "parameters", "IdQuery")],
+                                       "responses": {"200": use("A.resp", M_RESP, "responses", "ThingResp")}},
+                               "put": {"operationId": "opA2", "parameters": [copy.deepcopy(pid)], "requestBody": use("A2.body", M_BODY, "requestBodies", "ThingBody"),
+                                       "responses": {"204": {"description": "n"}}}}),
+        "B": ("/search", {"get": {"operationId": "opB", "parameters": [use("B.id", M_ID, "parameters", "IdQuery"), use("B.sort", M_SORT, "parameters", "Sort")],
+                                  "responses": {"200": use("B.resp", M_RESP, "responses", "ThingResp"), "404": use("B.problem404", M_PROBLEM, "responses", "Problem"),
+                                                "409": use("B.problem409", M_PROBLEM, "responses", "Problem")}}}),
+        "C": ("/other", {"post": {"operationId": "opC", "parameters": [use("C.id", M_ID, "parameters", "IdQuery"), use("C.sort", M_SORT, "parameters", "Sort")],
+                                  "requestBody": use("C.body", M_BODY, "requestBodies", "ThingBody"),
+                                  "responses": {"204": {"description": "n"}, "404": use("C.problem404", M_PROBLEM, "responses", "Problem")}}}),
+    }
+    return gen.base_doc(copy.deepcopy(SCHEMAS), paths={paths[k][0]: paths[k][1] for k in order}, components={k: v for k, v in comps.items() if v})
+
+
 # ---------------------------------------------------------------------------------------------------- part 2
 
 SCHEMA_POS = ["prop", "item", "union", "addl", "allof", "param", "body", "resp"]
@@ -150,9 +186,20 @@ MALFORMED = ["#/components/schemas/Nope", "http://remote.example/x.json#/compone
 MAL_POS = ["prop", "item", "union", "addl", "allof", "param-schema", "body-schema", "resp-schema", "op-param", "op-body", "op-resp", "item-param"]
 
 
-def doc_part3():
+def doc_part3(siblings="both"):
     comps = dict(copy.deepcopy(SCHEMAS))
+    # unrelated models that merely reference the same schemas as Holder, declared before and / or after it (who registers a
+    # shared dependency first is part of the state the generator keeps)
+    if siblings in ("before", "both"):
+        comps["SiblingBefore"] = {"type": "object", "properties": {"t0": {"$ref": R + "Thing"}, "e0": {"$ref": R + "Err"}}}
     comps["Holder"] = {"type": "object", "properties": {"t": {"$ref": R + "Thing"}}}
+    if siblings in ("after", "both"):
+        comps["SiblingAfter"] = {"type": "object", "properties": {"t2": {"$ref": R + "Thing"}, "ts": {"type": "array", "items": {"$ref": R + "Thing"}}}}
+    comps["SiblingUser"] = {"type": "object", "properties": {"own": {"type": "integer"}}}
+    if siblings in ("after", "both"):
+        comps["SiblingUser"]["properties"]["sa"] = {"$ref": R + "SiblingAfter"}
+    if siblings in ("before", "both"):
+        comps["SiblingUser"]["properties"]["sb"] = {"$ref": R + "SiblingBefore"}
     comps["Other"] = {"type": "object", "properties": {"h": {"$ref": R + "Holder"}}}
     comps["ViaItems"] = {"type": "object", "properties": {"hs": {"type": "array", "items": {"$ref": R + "Holder"}}}}
     comps["ViaAlias"] = {"type": "array", "items": {"$ref": R + "Holder"}}
@@ -164,6 +211,7 @@ def doc_part3():
     paths = {"/free": {"get": {"operationId": "getFree", "responses": {"200": {"description": "d", "content": {"application/json": {"schema": {"$ref": R + "Free"}}}}}}},
              "/other": {"get": {"operationId": "getOther", "responses": {"200": {"description": "d", "content": {"application/json": {"schema": {"$ref": R + "Other"}}}}}}},
              "/use": {"post": {"operationId": "useThing", "responses": {"204": {"description": "n"}}}},
+             "/sibling": {"get": {"operationId": "getSibling", "responses": {"200": {"description": "d", "content": {"application/json": {"schema": {"$ref": R + "SiblingUser"}}}}}}},
              "/list": {"get": {"operationId": "getList", "responses": {"200": {"description": "d", "content": {"application/json": {"schema": {"$ref": R + "ViaAlias"}}}}}}},
              "/items": {"get": {"operationId": "getItems", "responses": {"200": {"description": "d", "content": {"application/json": {"schema": {"$ref": R + "ViaItems"}}}}}}}}
     return gen.base_doc(comps, paths=paths, components={"requestBodies": {"Thing": {"content": {"application/json": {"schema": {"$ref": R + "Free"}}}}},
@@ -232,6 +280,15 @@ def cases(tier):
                 for version in (("3.1.0",) if tier == "quick" else ("3.1.0", "3.0.3")):
                     yield {"labels": [f"ref={x}" for x in subset] + ([f"body-chain={chain}"] if chain > 1 else []) + ([f"v={version}"] if version != "3.1.0" else []),
                            "payload": {"part": 1, "as_ref": list(subset), "chain": chain, "version": version}}
+    # part 1m: several operations sharing components, every use site inline or by reference
+    orders = ("ABC", "CBA") if tier == "quick" else ("ABC", "CBA", "BAC", "BCA")
+    for k in range(1, len(SITES_M) + 1):
+        if tier == "quick" and 3 < k < len(SITES_M) - 1:
+            continue                       # quick: up to 3 references, and all-but-one / all
+        for subset in itertools.combinations(SITES_M, k):
+            for order in orders:
+                yield {"labels": ["multi-op"] + [f"ref={x}" for x in subset] + [f"order={order}"],
+                       "payload": {"part": "1m", "as_ref": list(subset), "order": order}}
     # part 2
     for pos in SCHEMA_POS:
         for kind in REF_KINDS:
@@ -245,6 +302,9 @@ def cases(tier):
             if pos == "op-resp" and s == "#/components/responses/Thing":
                 continue        # a valid reference at this position
             yield {"labels": [f"malformed={s!r}", f"at={pos}"], "payload": {"part": 3, "ref": s, "pos": pos}}
+            if pos in ("prop", "item", "union", "addl", "allof") and (tier == "thorough" or s in MALFORMED[:2]):
+                for sib in ("none", "before", "after"):
+                    yield {"labels": [f"malformed={s!r}", f"at={pos}", f"siblings={sib}"], "payload": {"part": 3, "ref": s, "pos": pos, "siblings": sib}}
     for name in CYCLES:
         yield {"labels": [f"cycle={name}"], "payload": {"part": "cycle", "name": name}}
 
@@ -256,12 +316,18 @@ def _endpoint_files(tree):
 
 
 def _part1(p):
-    a = gen.generate(doc_part1(set(), 1, p["version"]))
-    b = gen.generate(doc_part1(set(p["as_ref"]), p["chain"], p["version"]))
+    if p["part"] == "1m":
+        a = gen.generate(doc_part1m(set(), p["order"]))
+        b = gen.generate(doc_part1m(set(p["as_ref"]), p["order"]))
+        sites = sorted({x.split(".")[1].rstrip("0123456789") for x in p["as_ref"]})
+        key = "multi-op/" + "+".join(sites)
+    else:
+        a = gen.generate(doc_part1(set(), 1, p["version"]))
+        b = gen.generate(doc_part1(set(p["as_ref"]), p["chain"], p["version"]))
+        key = "+".join(p["as_ref"]) + (f"/chain{p['chain']}" if p["chain"] > 1 else "")
     if a.crash or b.crash:
         c = a.crash or b.crash
         return {"skipped_crash": True, "outcome": f"crash:{c['type']}@{c['where']}", "nontrivial": False}
-    key = "+".join(p["as_ref"]) + (f"/chain{p['chain']}" if p["chain"] > 1 else "")
     viol = []
     if a.rejected or b.rejected:
         return {"violations": [{"oracle": "rejected", "site": "-", "key": key, "detail": "one of the variants was rejected"}], "outcome": "rejected"}
@@ -431,7 +497,7 @@ def _contained(dprime, carriers, d0, key, cleanup=()):
 
 
 def _part3(p):
-    d0 = doc_part3()
+    d0 = doc_part3(p.get("siblings", "both"))
     dprime, carriers = insert_malformed(d0, p["ref"], p["pos"])
     cls = "empty" if p["ref"] == "" else p["ref"]
     return _contained(dprime, carriers, d0, f"{p['pos']}/{cls}")
@@ -453,7 +519,7 @@ def _cycle(p):
 
 def run_case(p):
     part = p["part"]
-    if part == 1:
+    if part in (1, "1m"):
         return _part1(p)
     if part == 2:
         return _part2(p)
